@@ -29,6 +29,7 @@ var sinks = []sink{
 	{"anteLower", "x/reporter/ante", "TrackStakeChangesDecorator.AnteHandle", "allowedLowerBound"},
 	{"anteUpper", "x/reporter/ante", "TrackStakeChangesDecorator.AnteHandle", "allowedUpperBound"},
 	{"rewardAmount", "x/oracle/keeper", "CalculateRewardAmount", "amount"},
+	{"powerThreshold", "x/bridge/keeper", "Keeper.SetBridgeValidatorParams", "powerThreshold"},
 }
 
 type tr struct {
